@@ -35,9 +35,17 @@ def check_formula(ctx, f, case, tag):
     from rsome import grb_solver
     ctx.search_cases += 1; ctx.evaluations += 1
     tmp = tempfile.mkdtemp(prefix='c16_')
-    base = os.path.join(tmp, 'out')
+    # the file must be written under exactly the given name + '.lp', whatever the name ends with
+    stem = ['out', 'milp', 'socp', 'model_lp', 'tmp', 'a.b', 'lp'][int(ctx.rng.integers(0, 7))]
+    base = os.path.join(tmp, stem)
     try:
         f.to_lp(base)
+        written = sorted(os.listdir(tmp))
+        if written != [stem + '.lp']:
+            ctx.hit('to_lp-writes-another-file', {"asked_for": stem + '.lp', "directory_now_holds": written}, case)
+            return
+        if open(base + '.lp').read() != f.lp_export():
+            ctx.hit('to_lp-file-differs-from-lp_export', {"name": stem}, case)
         st, val, g = read_and_solve(base + '.lp')
         with C.quiet():
             sol = grb_solver.solve(f, display=False)
